@@ -1132,4 +1132,6 @@ func init() {
 	addMutants("C06", m)
 	addMutants("C07", m)
 	moreEdits["benign:rename-type-twins-minHeap-and-maxHeap"] = []edit{{"pkg/core/hnsw/hnsw_heap.go", "§all§maxHeap", "resultHeap"}, {"pkg/core/hnsw/hnsw_index.go", "§all§minHeap", "candidateHeap"}, {"pkg/core/hnsw/hnsw_index.go", "§all§maxHeap", "resultHeap"}}
+	addMutants("C18", mutant{"benign:unused-relocation-targets-returned", "pkg/storage/mmap/compactor.go", "\t\tif v.data == nil {\n\t\t\tcontinue\n\t\t}\n\n\t\t// TOCTOU check\n\t\tif ac.arena.slotTable[v.internalID] != v.fromSlot {\n\t\t\tcontinue\n\t\t}\n", "\t\tif v.data == nil {\n\t\t\tac.arena.freeSlots = append(ac.arena.freeSlots, newSlots[i])\n\t\t\tcontinue\n\t\t}\n\n\t\t// TOCTOU check\n\t\tif ac.arena.slotTable[v.internalID] != v.fromSlot {\n\t\t\tac.arena.freeSlots = append(ac.arena.freeSlots, newSlots[i])\n\t\t\tcontinue\n\t\t}\n", "silent", ""})
+	addMutants("C18", mutant{"relocation-target-returned-although-used", "pkg/storage/mmap/compactor.go", "\t\t\trelocated++\n", "\t\t\trelocated++\n\t\t\tac.arena.freeSlots = append(ac.arena.freeSlots, newSlots[i])\n", "GRD-slot", "moveBatch"})
 }
